@@ -106,21 +106,28 @@ def _in_specs(E, specs, c):
     return False
 
 
-def _glob_matches_from(E, tokens, follows_sep, chars, pos, i):
-    """-> 'match' | 'sub' | 'entire'"""
+_GLOB_DEFAULT = {'cs': True, 'rls': False, 'rld': False}
+
+
+def _glob_matches_from(E, tokens, follows_sep, chars, pos, i, o=_GLOB_DEFAULT):
+    """-> 'match' | 'sub' | 'entire'   (o: MatchOptions)"""
     for ti in range(i, len(tokens)):
         tok = tokens[ti]
         if tok[0] in ('seq', 'recseq'):
-            r = _glob_matches_from(E, tokens, follows_sep, chars, pos, ti + 1)
+            r = _glob_matches_from(E, tokens, follows_sep, chars, pos, ti + 1, o)
             if r != 'sub':
                 return r
             while pos < len(chars):
                 c = chars[pos]
                 pos += 1
+                if follows_sep and o['rld'] and _ceq(E, c, '.'):
+                    return 'sub'
                 follows_sep = _ceq(E, c, '/')
                 if tok[0] == 'recseq' and not follows_sep:
                     continue
-                r = _glob_matches_from(E, tokens, follows_sep, chars, pos, ti + 1)
+                if tok[0] == 'seq' and o['rls'] and follows_sep:
+                    return 'sub'
+                r = _glob_matches_from(E, tokens, follows_sep, chars, pos, ti + 1, o)
                 if r != 'sub':
                     return r
         else:
@@ -128,17 +135,24 @@ def _glob_matches_from(E, tokens, follows_sep, chars, pos, i):
                 return 'entire'
             c = chars[pos]
             pos += 1
-            if tok[0] == 'any':
+            is_sep = False if c.conc() and c.v != 47 else _ceq(E, c, '/')
+            if tok[0] in ('any', 'within', 'except') and ((o['rls'] and is_sep)
+                                                          or (follows_sep and o['rld'] and _ceq(E, c, '.'))):
+                okk = False
+            elif tok[0] == 'any':
                 okk = True
-            elif tok[0] == 'within':
-                okk = _in_specs(E, tok[1], c)
-            elif tok[0] == 'except':
-                okk = not _in_specs(E, tok[1], c)
+            elif tok[0] in ('within', 'except'):
+                if not o['cs']:
+                    raise ModelGap('glob: case-insensitive character classes are not modelled')
+                okk = _in_specs(E, tok[1], c) == (tok[0] == 'within')
+            elif not o['cs']:
+                from .models_core import ascii_lower
+                okk = E.branch(i_eq(ascii_lower(c), ascii_lower(tok[1])))
             else:
                 okk = E.branch(i_eq(c, tok[1]))
             if not okk:
                 return 'sub'
-            follows_sep = False if c.conc() and c.v != 47 else _ceq(E, c, '/')
+            follows_sep = is_sep
     return 'match' if pos >= len(chars) else 'sub'
 
 
@@ -148,6 +162,22 @@ def _glob_matches(E, ci, p, s):
     p = deref(p)
     chars = [c for _, c, _ in char_positions(E, as_slice(s))]
     return _glob_matches_from(E, p.tokens, True, chars, 0, 0) == 'match'
+
+
+@model('glob::Pattern::matches_with')
+def _glob_matches_with(E, ci, p, s, opts):
+    from .models_core import char_positions
+    p = deref(p)
+    opts = deref(opts)
+    f = [E.branch(x) if not isinstance(x, bool) else x for x in opts.fields]
+    o = {'cs': f[0], 'rls': f[1], 'rld': f[2]}       # field order of glob::MatchOptions
+    chars = [c for _, c, _ in char_positions(E, as_slice(s))]
+    return _glob_matches_from(E, p.tokens, True, chars, 0, 0, o) == 'match'
+
+
+@model('glob::MatchOptions::new', '<MatchOptions as Default>::default')
+def _glob_options_new(E, ci):
+    return Agg('glob::MatchOptions', 0, [True, False, False])
 
 
 @model('glob::Pattern::as_str')
